@@ -365,7 +365,9 @@ func c02History(c *Ctx, po bool, e *c02Env) {
 	tag := func() string { step++; return fmt.Sprintf("chain=%s step=%d", ch.tag, step) }
 	// (1) one BasisExtender for the whole sequence
 	if e.ringP != nil {
-		be := ring.NewBasisExtender(e.ringQ, e.ringP)
+		be0 := ring.NewBasisExtender(e.ringQ, e.ringP)
+		// three long-lived extenders sharing their read-only tables: the original, a shallow copy, a copy of the copy
+		bes := []*ring.BasisExtender{be0, be0.ShallowCopy(), be0.ShallowCopy().ShallowCopy()}
 		ops := []string{"qtop", "ptoq", "qptoq", "qptoqntt", "qptop"}
 		order := c02LevelOrder(r, lqs, len(ch.P), c.Scale(4, 10))
 		all := len(lqs)*len(ch.P) <= 4
@@ -377,6 +379,7 @@ func c02History(c *Ctx, po bool, e *c02Env) {
 				sel = []string{ops[r.Intn(2)], ops[2+r.Intn(3)], "qtop"}[:2+r.Intn(2)]
 			}
 			for _, op := range sel {
+				be := bes[step%len(bes)]
 				switch op {
 				case "qtop":
 					c02OneModUp(c, po, e, be, "qtop", pr.lq, pr.lp, c02FamValues(c, e.N, MQ, nil), tag())
@@ -487,8 +490,10 @@ func c02CI(c *Ctx, po bool, ch c02Chain, N int) {
 		}
 	}
 	if ringP != nil {
-		be := ring.NewBasisExtender(ringQ, ringP)
-		for _, levelQ := range c02Levels(len(ch.Q)) {
+		be0 := ring.NewBasisExtender(ringQ, ringP)
+		bes := []*ring.BasisExtender{be0, be0.ShallowCopy(), be0.ShallowCopy().ShallowCopy()}
+		for li, levelQ := range c02Levels(len(ch.Q)) {
+			be := bes[li%len(bes)]
 			levelP := c.rng.Intn(len(ch.P))
 			MQP := new(big.Int).Mul(c02ProdBig(ch.Q[:levelQ+1]), c02ProdBig(ch.P[:levelP+1]))
 			c02OneModDown(c, po, e, be, "qptoqntt", levelQ, levelP, c02FamValues(c, N, MQP, c02ProdBig(ch.P[:levelP+1])), fmt.Sprintf("ci N=%d", N))
